@@ -1138,6 +1138,29 @@ func CheckC13(c *Ctx) {
 		c.violate("backtest/protocol", site+".worker", "AssetBegin<strategies<AssetEnd", assetLoop.Pos(), "per asset the worker must call AssetBegin, then write every strategy, then AssetEnd")
 		return
 	}
+	// once AssetBegin has succeeded the asset is ended: between AssetBegin's own error branch and
+	// the strategy loop nothing leaves the iteration (an asset that was begun and never ended stays
+	// "begun" in the report: a later run cannot begin it again)
+	for k, s := range assetBody.List[idx["AssetBegin"]+1 : idx["loop"]] {
+		if k == 0 {
+			if _, isIf := s.(*ast.IfStmt); isIf {
+				continue // the error branch of AssetBegin itself
+			}
+		}
+		ast.Inspect(s, func(n ast.Node) bool {
+			switch x := n.(type) {
+			case *ast.FuncLit:
+				return false
+			case *ast.BranchStmt:
+				if x.Tok == token.CONTINUE || x.Tok == token.BREAK {
+					c.violate("backtest/protocol", site+".worker", "AssetEnd skipped after AssetBegin", x.Pos(), "the iteration can be left after AssetBegin succeeded and before AssetEnd: the asset is begun but never ended")
+				}
+			case *ast.ReturnStmt:
+				c.violate("backtest/protocol", site+".worker", "AssetEnd skipped after AssetBegin", x.Pos(), "the worker can return after AssetBegin succeeded and before AssetEnd: the asset is begun but never ended")
+			}
+			return true
+		})
+	}
 	// nothing between the strategy loop and AssetEnd can skip AssetEnd
 	for _, s := range assetBody.List[idx["loop"]+1 : idx["AssetEnd"]] {
 		ast.Inspect(s, func(n ast.Node) bool {
@@ -2520,7 +2543,8 @@ func (c *Ctx) writeArguments(worker *load.FuncInfo, site string) {
 			} else {
 				y, okY := constInt(info, add.Args[0])
 				m, okM := constInt(info, add.Args[1])
-				neg, isNeg := ast.Unparen(add.Args[2]).(*ast.UnaryExpr)
+				days, _ := c.origin(info, ofd, add.Args[2], 0)
+				neg, isNeg := ast.Unparen(days).(*ast.UnaryExpr)
 				now := false
 				if sel, isSel := ast.Unparen(add.Fun).(*ast.SelectorExpr); isSel {
 					if nc, isC := ast.Unparen(sel.X).(*ast.CallExpr); isC && calleeName(info, nc) == "time.Now" {
